@@ -142,6 +142,69 @@ theorem popLast_local (h : Heap) (c : Cont) (hc : FpOK h c) :
           have : i ≠ p.2 := fun e => hne p hp e.symm
           simp [Heap.setVals, Heap.setItems, this]
 
+/-- local changes compose -/
+theorem Local.trans {h h1 h2 : Heap} {c c1 c2 : Cont} (a : Local h c h1 c1) (b : Local h1 c1 h2 c2) :
+    Local h c h2 c2 := by
+  refine ⟨Nat.le_trans a.iNext_le b.iNext_le, Nat.le_trans a.vNext_le b.vNext_le, ?_, ?_, ?_, ?_, b.ok⟩
+  · intro i hi hne
+    rw [b.frameI i (Nat.lt_of_lt_of_le hi a.iNext_le) ?_, a.frameI i hi hne]
+    rcases a.ownI with e | e
+    · rw [e]; exact hne
+    · omega
+  · intro i hi hne
+    rw [b.frameV i (Nat.lt_of_lt_of_le hi a.vNext_le) ?_, a.frameV i hi hne]
+    intro p hp
+    rcases a.ownV p hp with ⟨q, hq, e⟩ | e
+    · rw [← e]; exact hne q hq
+    · omega
+  · rcases b.ownI with e | e
+    · rw [e]; exact a.ownI
+    · exact Or.inr (Nat.le_trans a.iNext_le e)
+  · intro p hp
+    rcases b.ownV p hp with ⟨q, hq, e⟩ | e
+    · rcases a.ownV q hq with ⟨r, hr, e2⟩ | e2
+      · exact Or.inl ⟨r, hr, e2.trans e⟩
+      · exact Or.inr (e ▸ e2)
+    · exact Or.inr (Nat.le_trans a.vNext_le e)
+
+theorem appendAll_local (ps : List (K × V)) : ∀ (h : Heap) (c : Cont), FpOK h c →
+    Local h c (appendAll h c ps).1 (appendAll h c ps).2 := by
+  induction ps with
+  | nil => intro h c hc; exact Local.refl h c hc
+  | cons p r ih =>
+    intro h c hc
+    obtain ⟨k, v⟩ := p
+    have a := append_local h c k v hc
+    exact a.trans (ih _ _ a.ok)
+
+theorem setAll_local (ps : List (K × V)) : ∀ (h : Heap) (c : Cont), FpOK h c →
+    Local h c (setAll h c ps).1 (setAll h c ps).2 := by
+  induction ps with
+  | nil => intro h c hc; exact Local.refl h c hc
+  | cons p r ih =>
+    intro h c hc
+    obtain ⟨k, v⟩ := p
+    have a := setitem_local h c k v hc
+    exact a.trans (ih _ _ a.ok)
+
+theorem clear_local (h : Heap) (c : Cont) (_hc : FpOK h c) :
+    Local h c (clear h c).1 (clear h c).2 := by
+  unfold clear
+  refine ⟨by simp [Heap.allocItems], by simp [Heap.allocItems], ?_, ?_, Or.inr (by simp [Heap.allocItems]), ?_, ?_⟩
+  · intro i hi _
+    have : i ≠ h.iNext := by omega
+    simp [Heap.allocItems, this]
+  · intro i _ _; simp [Heap.allocItems]
+  · intro q hq; simp [Heap.allocItems] at hq
+  · exact ⟨by simp [Heap.allocItems], by simp [Heap.allocItems]⟩
+
+theorem discard_local (h : Heap) (c : Cont) (k : K) (hc : FpOK h c) :
+    Local h c (discard h c k).1 (discard h c k).2 := by
+  unfold discard
+  split
+  · exact delitem_local h c k hc
+  · exact Local.refl h c hc
+
 theorem step_local (h : Heap) (c : Cont) (o : Op) (hc : FpOK h c) :
     Local h c (step h c o).1 (step h c o).2 := by
   cases o with
@@ -149,6 +212,10 @@ theorem step_local (h : Heap) (c : Cont) (o : Op) (hc : FpOK h c) :
   | delitem k => exact delitem_local h c k hc
   | setitem k v => exact setitem_local h c k v hc
   | popLast => exact popLast_local h c hc
+  | extend ps => exact appendAll_local ps h c hc
+  | update ps => exact setAll_local ps h c hc
+  | clear => exact clear_local h c hc
+  | discard k => exact discard_local h c k hc
 
 /-- any history of methods on `c` leaves every container that shares no list with `c` as it was -/
 theorem run_frame (ops : List Op) : ∀ (h : Heap) (c b : Cont), FpOK h c → FpOK h b → Sep c b →
